@@ -34,6 +34,7 @@ type pq interface {
 	Enqueue(int) error
 	Dequeue() (int, error)
 	VerifHeapDump() ([]int, bool)
+	VerifDataCap() int
 }
 
 func cmp3(a, b int) int {
@@ -105,7 +106,23 @@ func doOp(q pq, op string) (ans string) {
 	return "badop"
 }
 
+// capMode (argument "cap"): the observation after every operation is "<Len()>|<cap(p.data)>" instead
+// of "<Len()>|<array>" (capacity rule of HeapCapModel; the array is compared by the default mode).
+var capMode bool
+
 func observe(q pq) (s string) {
+	if capMode {
+		defer func() {
+			if r := recover(); r != nil {
+				s = "panic|panic"
+			}
+		}()
+		return strconv.Itoa(q.Len()) + "|" + strconv.Itoa(q.VerifDataCap())
+	}
+	return observeArray(q)
+}
+
+func observeArray(q pq) (s string) {
 	defer func() {
 		if r := recover(); r != nil {
 			s = "panic|panic"
@@ -166,6 +183,7 @@ func runHistory(f []string) string {
 // C05_HANG_MS (default 3000) milliseconds is answered "hang|hang|hang"; the process then exits with
 // status 3 (the spinning call cannot be cancelled) and the caller resumes with the next history.
 func Main(args []string) {
+	capMode = len(args) > 0 && args[0] == "cap"
 	limit := 3000 * time.Millisecond
 	if ms, err := strconv.Atoi(os.Getenv("C05_HANG_MS")); err == nil && ms > 0 {
 		limit = time.Duration(ms) * time.Millisecond
